@@ -362,11 +362,12 @@ var Mutants = map[string][]Mutant{
 		{"Text.Heights uses the first line's top", "text.go", `\t_, ascent, _, _ := firstLine\.Heights\(t\.WritingMode\)`, "\tascent, _, _, _ := firstLine.Heights(t.WritingMode)", "E3.line-heights"},
 	},
 	"C17": {
+		{"start node taken for a flagged break", "text/linebreak.go", `if 0 < active\.Line && lb\.items\[active\.Position\]\.Flagged && item\.Flagged \{`, "if lb.items[active.Position].Flagged && item.Flagged {", "E4.flagged-pair-real-break"},
 		{"InsertBefore links the old head one way", "text/linebreak.go", `(\t\tat\.prev\.next = b\n)\t\}\n\tat\.prev = b\n`, "${1}\t\tat.prev = b\n\t}\n", "E4.list-links"},
 		{"ratio of a fitness class recorded only for the overall cheapest candidate", "text/linebreak.go", `(?s)\t\t\t\t\tD\[c\] = demerits\n\t\t\t\t\tA\[c\] = active\n\t\t\t\t\tR\[c\] = ratio\n\t\t\t\t\tif demerits < Dmin \{\n\t\t\t\t\t\tDmin = demerits\n`, "\t\t\t\t\tD[c], A[c] = demerits, active\n\t\t\t\t\tif demerits < Dmin {\n\t\t\t\t\t\tDmin, R[c] = demerits, ratio\n", "E4.class-records-together"},
 		{"next stretch limit recorded in the else of the deactivation test", "text/linebreak.go", `(?s)(\t\t\t\tlb\.inactiveNodes\.Push\(active\)\n\t\t\t\})(\n\t\t\tif -1\.0 <= ratio && ratio <= tolerance \{.*?\n\t\t\t)\} else if tolerance < ratio \{\n[^\n]*\n\t\t\t\tlb\.nextTolerance = math\.Min\(lb\.nextTolerance, ratio\)\n\t\t\t\}`, "$1 else if tolerance < ratio {\n\t\t\t\tlb.nextTolerance = math.Min(lb.nextTolerance, ratio)\n\t\t\t}$2}", "E4.next-tolerance-recorded"},
 		{"penalty width added to the running total during mainLoop", "text/linebreak.go", `(func \(lb \*linebreaker\) mainLoop\(b int, tolerance float64\) \{\n\titem := lb\.items\[b\]\n\tactive := lb\.activeNodes\.head\n)`, "${1}\tif item.Type == PenaltyType {\n\t\tdefer func(W float64) { lb.W = W }(lb.W)\n\t\tlb.W += item.Width\n\t}\n", "E4.running-totals-fixed"},
-		{"flagged-break demerit added first and overwritten by the else branch", "text/linebreak.go", `(?s)(\t\t\t\tdemerits := 0\.0\n)(.*?)(\t\t\t\tif lb\.items\[active\.Position\]\.Flagged && item\.Flagged \{\n\t\t\t\t\tdemerits \+= DemeritsFlagged\n\t\t\t\t\}\n)`, "${1}\t\t\t\tif lb.items[active.Position].Flagged && item.Flagged {\n\t\t\t\t\tdemerits = DemeritsFlagged\n\t\t\t\t}\n${2}", "E11.sum-not-overwritten"},
+		{"flagged-break demerit added first and overwritten by the else branch", "text/linebreak.go", `(?s)(\t\t\t\tdemerits := 0\.0\n)(.*?)(\t\t\t\tif 0 < active\.Line && lb\.items\[active\.Position\]\.Flagged && item\.Flagged \{\n\t\t\t\t\tdemerits \+= DemeritsFlagged\n\t\t\t\t\}\n)`, "${1}\t\t\t\tif 0 < active.Line && lb.items[active.Position].Flagged && item.Flagged {\n\t\t\t\t\tdemerits = DemeritsFlagged\n\t\t\t\t}\n${2}", "E11.sum-not-overwritten"},
 		{"inactive nodes kept across a forced break", "text/linebreak.go", `(?s)\t\tif item\.Type == PenaltyType && item\.Penalty <= -Infinity \{\n\t\t\t// no line spans a forced break: the nodes before it cannot start a later line\n\t\t\tlb\.inactiveNodes = &Breakpoints\{\}\n\t\t\}\n`, "", "E4.forced-break-forgets"},
 		{"inactive nodes dropped only at forced breaks that carry a width", "text/linebreak.go", `(?s)(\t\tif item\.Type == PenaltyType && item\.Penalty <= -Infinity) (\{\n\t\t\t// no line spans a forced break)`, "${1} && item.Width != 0.0 ${2}", "E4.forced-break-forgets"},
 		{"unstretchable line tested on the running stretch sum", "text/linebreak.go", `if lb\.Y-active\.Y == 0\.0 \{`, "if lb.Y == 0.0 {", "E4.zero-guard-is-divisor"},
